@@ -10,3 +10,7 @@ def run(ctx):
     node_check.run(ctx, "C10", walks=(150, 8000))
     import pdo_check
     pdo_check.run(ctx, ["C10P"], quick_edges=9000, walks=(40, 2000))
+    # "no NMT state change, PDO or SYNC reconfiguration or other timer activity shifts, duplicates or suppresses a heartbeat": the heartbeat
+    # producer next to every other service and timer of the node (product model CoFull)
+    import full_check
+    full_check.run(ctx, 400 if ctx.tier == "quick" else 20000)
